@@ -80,10 +80,10 @@ type scanObs struct {
 	// the API store (possible only with a stale view); the controller counts them as done.
 	adds, removes         []string
 	noopAdds, noopRemoves int
-	failedNodes          map[string]bool
-	incr                 []sim.Entry // cloud increase attempts (SetDesiredCapacity / CreateFleet)
-	terminatedBeforeIncr int
-	writes               []sim.Entry
+	failedNodes           map[string]bool
+	incr                  []sim.Entry // cloud increase attempts (SetDesiredCapacity / CreateFleet)
+	terminatedBeforeIncr  int
+	writes                []sim.Entry
 }
 
 func observe(ctx *h.ScanCtx, g *h.GroupView) scanObs {
@@ -314,6 +314,24 @@ func (m *Decisions) AfterScan(ctx *h.ScanCtx) []h.Violation {
 		for _, e := range ctx.Entries {
 			if e.Err == "injected" && e.Op != sim.OpK8sGet && e.Op != sim.OpK8sUpdate {
 				faultsOnlyNodeWrites = false
+			}
+		}
+		// a fault-free fleet scale-up delivers what it asked for: every acquired instance is attached
+		if !ctx.Faulted && clean {
+			for _, e := range o.incr {
+				if e.Op != sim.OpCreateFleet || e.Err != "" {
+					continue
+				}
+				attached := 0
+				for _, w := range o.writes {
+					if w.Op == sim.OpAttach && w.Err == "" {
+						attached += len(w.IDs)
+					}
+				}
+				ctx.H.Cov["c05.fleet-scale-ups"]++
+				if int64(attached) != e.Val {
+					add("C05", "C05/fleet-amount-not-attached", fmt.Sprintf("group %s: CreateFleet asked for %d instances and succeeded, %d were attached to the cloud group", g.Name, e.Val, attached))
+				}
 			}
 		}
 		if d.Class == "up" && d.NMin > 0 && !d.FromZero && (!ctx.Faulted || faultsOnlyNodeWrites) {
